@@ -27,7 +27,10 @@ RULE = ('A: Hypothesis draws orchestration scenarios with 0-3 searchers (scripte
         'rebuild, or noDeps with an unrequested dependency. B: the complete lattice searcher kind x destination '
         'present/absent x mtime in {source-1, source, source+1} x decoys {same-named directory, other extension, '
         'other letter case, name with suffix} x extension lists x rebuild is enumerated on a real directory; every '
-        'combination is one distinct case, non-trivial when an mtime is within 1 of the source or a decoy exists.')
+        'combination is one distinct case, non-trivial when an mtime is within 1 of the source or a decoy exists; kinds '
+        'include a package imported from a ZIP archive, names include a mixed-case one. C: Hypothesis draws source and '
+        'copy times with nanosecond parts, the source time is taken from a real FileReader; non-trivial when the source '
+        'time has a sub-second part and the copy lies within 1.5 s of it.')
 ASSUMPTIONS = [
     'B: modification time = st_mtime truncated to whole seconds, as the searchers read it (os.stat()[8])',
     'B: byte-compiled .pyc files are a separate class (finding D23) and are not part of the lattice',
